@@ -4,6 +4,7 @@ package c10
 
 import (
 	"fmt"
+	"strings"
 
 	"github.com/lugu/qiloop/bus/net"
 
@@ -251,6 +252,83 @@ func light() {
 	}
 	vrt.Observe("order=%v", got)
 	_ = b
+}
+
+// consumerBacklog: the AddHandler entry point (queue of 10 + consumer callback).
+// The consumer is still busy with the first frame when four more arrive (the
+// queue has room for all of them); then the handler ends - local Close, the
+// peer hangs up, or RemoveHandler - and only then the consumer gets on. Every
+// frame that was accepted into the queue reaches the consumer, in arrival order.
+func consumerBacklog() {
+	ca, cb := vnet.NewPair("a", "b")
+	a := net.NewEndPoint(ca)
+	frameType = net.Post
+	gate := make(chan struct{})
+	var got []uint32
+	closerRan := 0
+	afterCloser := 0
+	id := -1
+	b := net.EndPointFinalizer(cb, func(e net.EndPoint) {
+		id = e.AddHandler(func(h *net.Header) (bool, bool) { return true, true },
+			func(m *net.Message) error {
+				if len(got) == 0 {
+					<-gate
+				}
+				if !intact(m) {
+					vrt.Failf("corrupt/consumer", "damaged frame: header %+v, %d payload bytes", m.Header, len(m.Payload))
+				}
+				got = append(got, m.Header.ID)
+				if closerRan > 0 {
+					afterCloser++
+				}
+				return nil
+			},
+			func(err error) { closerRan++ })
+	})
+	how := vrt.ChooseFree(3, "how the handler ends")
+	vrt.Explore()
+	for k := 0; k < 4; k++ {
+		fid := uint32(100 + k)
+		if err := a.Send(net.NewMessage(net.NewHeader(net.Post, 1, 9, uint32(k+50), fid), payload(fid, sizes[(1+k)%len(sizes)]))); err != nil {
+			vrt.Failf("send-error", "send %d failed: %v", fid, err)
+		}
+	}
+	vrt.Quiesce() // all four frames were dispatched: one with the consumer, three in its queue
+	w := vrt.GoWorker("ender", func() {
+		switch how {
+		case 0:
+			b.Close()
+		case 1:
+			a.Close()
+		case 2:
+			if err := b.RemoveHandler(id); err != nil {
+				vrt.Failf("remove-error", "RemoveHandler(%d): %v", id, err)
+			}
+		}
+	})
+	vrt.Quiesce()
+	if !w.Done() {
+		vrt.Failf("hang/ender", "ending the handler blocked on %s", w.BlockedOn())
+	}
+	close(gate)
+	vrt.Quiesce()
+	want := "[100 101 102 103]"
+	if how == 2 && strings.HasPrefix(want, strings.TrimSuffix(fmt.Sprint(got), "]")) && len(got) >= 1 {
+		// the owner removed the handler itself: what is still queued may be
+		// dropped (the handler is no longer registered), but what is handed
+		// over is a prefix of the arrivals, in order
+		want = fmt.Sprint(got)
+	}
+	if fmt.Sprint(got) != want {
+		vrt.Failf("missing/consumer", "four frames were accepted into the consumer's queue (room for ten) before the handler ended (%s); the consumer received %v", []string{"Close", "peer close", "RemoveHandler"}[how], got)
+	}
+	if closerRan != 1 {
+		vrt.Failf("closer-count", "closer ran %d times", closerRan)
+	}
+	vrt.Observe("how=%d got=%v closer=%d after=%d", how, got, closerRan, afterCloser)
+	a.Close()
+	b.Close()
+	vrt.Quiesce()
 }
 
 // registration: two goroutines register a handler each on one endpoint at the
@@ -538,6 +616,8 @@ func init() {
 		Doc: "12 handlers on one endpoint (two beyond the preallocated table), 8 patterns of removals, optionally one more registration; three frames: every remaining handler receives exactly its subsequence"})
 	reg.Register(&reg.Scenario{Property: "C10", Name: "calls-blocked-first-handler", Body: body(2, 2, false, net.Call, true), Quick: 2, Thorough: 4,
 		Doc: "2 senders x 2 Call frames; the first registered handler selects everything but never drains its 1-slot queue", MustFlag: []string{"sender-overtaken"}})
+	reg.Register(&reg.Scenario{Property: "C10", Name: "addhandler-backlog-then-end", Body: consumerBacklog, Quick: 2, Thorough: 4,
+		Doc: "AddHandler consumer busy with the first of four frames (three wait in its queue of ten); the handler then ends by Close / peer close / RemoveHandler before the consumer gets on: every frame accepted into the queue reaches the consumer, in order"})
 	reg.Register(&reg.Scenario{Property: "C10", Name: "two-senders-mixed-types", Body: body(2, 3, false, 0, false), Quick: 2, Thorough: 4,
 		Doc: "two senders x 3 frames each, every sender mixing message types (event, post, reply, call, error, capability): each sender's frames arrive in the order it sent them whatever their types"})
 	reg.Register(&reg.Scenario{Property: "C10", Name: "two-senders", Body: body(2, 2, false, net.Post, false), Quick: 2, Thorough: 5,
